@@ -297,8 +297,57 @@ func privPub(fam string, priv, pub *keyset.Handle) string {
 	return ""
 }
 
+// usable: can the family's primitives be created from the handle at all?
+// (Some accepted parameter combinations have no primitive, e.g. ECIES with an
+// XChaCha20-Poly1305 DEM; that is not a serialisation matter.)
+func usable(fam string, h *keyset.Handle) bool {
+	var err error
+	switch fam {
+	case "aead":
+		_, err = aead.New(h)
+	case "daead":
+		_, err = daead.New(h)
+	case "mac":
+		_, err = mac.New(h)
+	case "prf":
+		_, err = prf.NewPRFSet(h)
+	case "streaming":
+		_, err = streamingaead.New(h)
+	case "jwtmac":
+		_, err = jwt.NewMAC(h)
+	case "deriver":
+		_, err = keyderivation.New(h)
+	case "sig", "hybrid", "jwtsig":
+		pub, perr := h.Public()
+		if perr != nil {
+			return false
+		}
+		switch fam {
+		case "sig":
+			if _, err = signature.NewSigner(h); err == nil {
+				_, err = signature.NewVerifier(pub)
+			}
+		case "hybrid":
+			if _, err = hybrid.NewHybridDecrypt(h); err == nil {
+				_, err = hybrid.NewHybridEncrypt(pub)
+			}
+		case "jwtsig":
+			if _, err = jwt.NewSigner(h); err == nil {
+				_, err = jwt.NewVerifier(pub)
+			}
+		}
+	}
+	return err == nil
+}
+
 // interop: primitives of the original and the reread handle interoperate, both ways.
 func interop(fam string, a, b *keyset.Handle) string {
+	if !usable(fam, a) {
+		if usable(fam, b) {
+			return "the reread handle yields primitives but the original does not"
+		}
+		return ""
+	}
 	if d := oneWay(fam, a, b); d != "" {
 		return "original->reread: " + d
 	}
@@ -310,6 +359,9 @@ func interop(fam string, a, b *keyset.Handle) string {
 
 // interopPublic: the reread public handle works with the original private one.
 func interopPublic(fam string, priv, pubReread *keyset.Handle) string {
+	if !usable(fam, priv) {
+		return ""
+	}
 	switch fam {
 	case "sig", "hybrid", "jwtsig":
 		return privPub(fam, priv, pubReread)
